@@ -98,6 +98,9 @@ func (s *ModelServer) PullActiveMode(request *traits.PullActiveModeRequest, serv
 }
 
 func (s *ModelServer) ListModes(_ context.Context, request *traits.ListModesRequest) (*traits.ListModesResponse, error) {
+	if err := checkPageSize(request.GetPageSize()); err != nil {
+		return nil, err
+	}
 	pageToken := &types.PageToken{}
 	if err := decodePageToken(request.PageToken, pageToken); err != nil {
 		return nil, err
